@@ -21,8 +21,8 @@ pub const DEF: PropDef = PropDef {
 
 fn jobs(plan: &Plan) -> Vec<Job> {
     let t = plan.tier;
-    let mut v = stack_jobs(plan, "C03", "sequence", t.pick(24, 200, 1), |_| true);
-    v.extend(stack_jobs(plan, "C03", "long", t.pick(3, 12, 0), |d| d.flags.idx_usize));
+    let mut v = stack_jobs(plan, "C03", "sequence", t.pick(24, 600, 1), |_| true);
+    v.extend(stack_jobs(plan, "C03", "long", t.pick(3, 30, 0), |d| d.flags.idx_usize));
     v
 }
 
